@@ -9,6 +9,7 @@ import (
 	"fmt"
 	"go/token"
 	"go/types"
+	"sort"
 	"path/filepath"
 	"strings"
 
@@ -251,6 +252,7 @@ func checkC17(c *Ctx, r *Report) {
 	}
 	numberOrderRule(c, r)
 	dquoteRules(c, r)
+	whitespaceSetRule(c, r)
 	r.Check(okStop, "R17c", c.FnName(pf), "top-level stop set", c.Pos(pf.Pos()), "stop set is \"\" exactly under IgnoreCommas, otherwise \",\"", "the top-level stop set is not chosen by Config.IgnoreCommas as documented")
 	_ = strings.TrimSpace
 }
@@ -427,4 +429,125 @@ func dquoteRules(c *Ctx, r *Report) {
 		}
 	}
 	r.Check(okFallback, "R17g", name, "JSON-only escapes", c.Pos(unq.Pos()), "json.Unmarshal on the same literal under Unquote's failure", "a literal that strconv.Unquote rejects is not given to the JSON decoder: \\/ and surrogate pairs, which are valid JSON, are syntax errors")
+}
+
+// whitespaceSetRule (R17h): R17a shows that every lookahead is made after ignoreWhitespace(); this rule shows
+// that ignoreWhitespace skips what JSON calls white space: space, tab, line feed and carriage return. Accepted
+// are the library trimmers with unicode.IsSpace / strings.TrimSpace / a constant cutset, or a hand-written scan
+// whose byte tests and lookup table (a package-level [N]bool initialised with constant indices) cover the four.
+func whitespaceSetRule(c *Ctx, r *Report) {
+	r.Rule("R17h", "ignoreWhitespace skips the four JSON white space characters (space, tab, line feed, carriage return)", 1)
+	iw := c.Method("parse", "flagParser", "ignoreWhitespace")
+	name := c.FnName(iw)
+	need := map[int64]string{32: "space", 9: "tab", 10: "line feed", 13: "carriage return"}
+	covered := map[int64]bool{}
+	all := false
+	var tables []*ssa.Global
+	fam := c.Family(iw)
+	for _, fn := range fam {
+		Instrs(fn, true, func(in ssa.Instruction) {
+			switch x := in.(type) {
+			case ssa.CallInstruction:
+				g := x.Common().StaticCallee()
+				if g == nil {
+					return
+				}
+				// a library trimmer counts only when it is applied to the whole input on every execution (not to a rest
+				// of it under some condition, as a fallback for wide characters would be)
+				whole := false
+				if len(x.Common().Args) > 0 && fn == iw {
+					unconditional := true
+					for _, ret := range Returns(fn) {
+						if !(x.(ssa.Instruction).Block() == ret.Block() || x.(ssa.Instruction).Block().Dominates(ret.Block())) {
+							unconditional = false
+						}
+					}
+					if unconditional {
+						for _, s := range Sources(x.Common().Args[0]) {
+							if l, ok := s.(*ssa.UnOp); ok && l.Op == token.MUL {
+								if nt, f, ok := FieldOf(l.X); ok && nt.Obj().Name() == "flagParser" && f == "input" {
+									whole = true
+								}
+							}
+						}
+					}
+				}
+				switch g.String() {
+				case "strings.TrimSpace":
+					all = all || whole
+				case "strings.TrimLeftFunc", "strings.TrimFunc", "strings.IndexFunc":
+					for _, a := range x.Common().Args {
+						for _, s := range Sources(a) {
+							if f, ok := s.(*ssa.Function); ok && f.String() == "unicode.IsSpace" {
+								all = all || whole
+							}
+						}
+					}
+				case "strings.TrimLeft", "strings.Trim":
+					if len(x.Common().Args) == 2 {
+						if cut, ok := ConstString(x.Common().Args[1]); ok {
+							for _, ch := range cut {
+								covered[int64(ch)] = true
+							}
+						}
+					}
+				}
+			case *ssa.BinOp:
+				if x.Op == token.EQL || x.Op == token.NEQ {
+					if k, ok := ConstInt(x.Y); ok {
+						covered[k] = true
+					} else if k, ok := ConstInt(x.X); ok {
+						covered[k] = true
+					}
+				}
+			case *ssa.IndexAddr:
+				if g, ok := x.X.(*ssa.Global); ok {
+					tables = append(tables, g)
+				}
+			case *ssa.Index:
+				for _, s := range Sources(x.X) {
+					if l, ok := s.(*ssa.UnOp); ok && l.Op == token.MUL {
+						if g, ok := l.X.(*ssa.Global); ok {
+							tables = append(tables, g)
+						}
+					}
+				}
+			}
+		})
+	}
+	// the entries set in the lookup tables: stores of true at constant indices in the package initialiser
+	if initFn := c.SSA["parse"].Func("init"); initFn != nil {
+		Instrs(initFn, false, func(in ssa.Instruction) {
+			st, ok := in.(*ssa.Store)
+			if !ok {
+				return
+			}
+			ia, ok := st.Addr.(*ssa.IndexAddr)
+			if !ok {
+				return
+			}
+			g, ok := ia.X.(*ssa.Global)
+			if !ok {
+				return
+			}
+			for _, t := range tables {
+				if t == g {
+					if k, ok := ConstInt(ia.Index); ok {
+						if b, isB := ConstBool(st.Val); isB && b {
+							covered[k] = true
+						}
+					}
+				}
+			}
+		})
+	}
+	var missing []string
+	for k, n := range need {
+		if !all && !covered[k] {
+			missing = append(missing, n)
+		}
+	}
+	sort.Strings(missing)
+	r.Check(len(missing) == 0, "R17h", name, "JSON white space", c.Pos(iw.Pos()), "space, tab, line feed and carriage return are skipped",
+		"ignoreWhitespace does not skip "+strings.Join(missing, ", ")+": JSON text laid out with it (CRLF line ends, say) is rejected or misread although every lookahead is preceded by the skip")
 }
